@@ -13,9 +13,9 @@ package gen
 // A ResultSpec is the serialisable form (replay files); ToResult builds the vegeta.Result.
 
 import (
-	"strconv"
 	"net/http"
 	"net/textproto"
+	"strconv"
 	"strings"
 	"time"
 	"unicode/utf8"
@@ -29,8 +29,8 @@ type ResultSpec struct {
 	Seq      uint64              `json:"seq"`
 	Code     uint16              `json:"code"`
 	TsNano   int64               `json:"ts_nano"`
-	ZoneMin  int                 `json:"zone_min"` // offset east of UTC in minutes; 0 = UTC
-	Local    bool                `json:"local,omitempty"` // the time.Time carries time.Local (the zone of the TZ the harness runs under)
+	ZoneMin  int                 `json:"zone_min"`           // offset east of UTC in minutes; 0 = UTC
+	Local    bool                `json:"local,omitempty"`    // the time.Time carries time.Local (the zone of the TZ the harness runs under)
 	FarYear  int                 `json:"far_year,omitempty"` // ≠ 0: the timestamp is 2 January of that year (outside the int64-nanosecond range; only gob can carry it, JSON refuses years > 9999)
 	Latency  int64               `json:"latency"`
 	BytesOut uint64              `json:"bytes_out"`
